@@ -1,5 +1,5 @@
 import Driver.Common
-import ScionVerif.Model.TunServer
+import ScionVerif.Model.TunServerEntry
 /-! line-protocol driver for the identity registry + SNAP tunnel server model (C09)
 
 requests (one per line):
@@ -11,6 +11,10 @@ requests (one per line):
   in <addr> data <signer|-> <hs> <src-addr> <ridx> <ctr> <payload-hex>
   in <addr> other | in <addr> junk
   out <addr> <payload-hex>
+  inp <addr> …  |  outp <addr> <payload-hex>   the same operation through the compatibility wrappers
+                                        `handle_incoming_packet` / `handle_outgoing_packet` (`stepVia .plain`)
+  entrypoints                           the `pub fn`s of `impl SnapTunServer` as regenerated from the source, with the
+                                        role the model gives each (`?` = the model has no function for it)
 response: `<outcome> | t=<now> tun=<addr:peer,…> a=<key:id,…> s=<id:expiry,…> auth=<verdicts for ids 0..3>`
 -/
 open ScionVerif.SnapTun Driver
@@ -66,6 +70,23 @@ def outStr : Out GoWg.Net → String
   | .outgoing (some (n, _)) _ => s!"out some:{match n with | some x => netStr x | none => "none"}"
   | .ticked net => s!"tick {joinOr (net.map (fun p => s!"{p.1}:{netStr p.2}"))}"
 
+def voutStr : VOut GoWg.Net → String
+  | .session o => outStr o
+  | .incomingPlain net r => s!"inp res={resStr (.result r)} net={joinOr (net.map netStr)}"
+  | .outgoingPlain none => "outp none"
+  | .outgoingPlain (some n) => s!"outp some:{netStr n}"
+
+def roleStr : Role → String
+  | .construct => "construct"
+  | .incoming => "incoming"
+  | .outgoing => "outgoing"
+  | .timers => "timers"
+  | .readOnlyHook => "hook"
+
+def entryPointsStr : String :=
+  " ".intercalate (ScionVerif.Generated.SnapTun.SERVER_PUB_FNS.map (fun n =>
+    s!"{n}={match entryPoints.lookup n with | some r => roleStr r | none => "?"}"))
+
 def sortPairs (l : List (Nat × Nat)) : List (Nat × Nat) := l.mergeSort (fun a b => a.1 ≤ b.1)
 
 def stateStr (s : S) : String :=
@@ -90,14 +111,19 @@ def parseOp : List String → Option (Op GoWg.Pkt)
   | _ => none
 
 def apply (s : S) (ws : List String) : Option (S × String) :=
+  let (via, ws) : Via × List String := match ws with
+    | "inp" :: rest => (.plain, "in" :: rest)
+    | "outp" :: rest => (.plain, "out" :: rest)
+    | ws => (.session, ws)
   match parseOp ws with
   | some op =>
-    let (s', o) := step GoWg.wg s op
-    some (s', s!"{outStr o} | {stateStr s'}")
+    let (s', o) := stepVia GoWg.wg s via op
+    some (s', s!"{voutStr o} | {stateStr s'}")
   | none => none
 
 def stepD (st : St) : List String → St × String
   | ["new"] => ({}, "ok")
+  | ["entrypoints"] => (st, entryPointsStr)
   | "at" :: d :: rest =>
     match d.toNat? with
     | some d =>
